@@ -193,6 +193,11 @@ def expand(fnode, expr, max_depth=8, helpers=False):
                 stores[x] = stores.get(x, 0) + 2
     single = {}
     for n in own_scope(fnode):
+        if isinstance(n, ast.Assign) and len(n.targets) == 1 and isinstance(n.targets[0], (ast.Tuple, ast.List)) and isinstance(n.value, (ast.Tuple, ast.List)) \
+                and len(n.targets[0].elts) == len(n.value.elts) and all(isinstance(e, ast.Name) for e in n.targets[0].elts):
+            for te, ve in zip(n.targets[0].elts, n.value.elts):
+                if stores.get(te.id) == 1 and te.id not in params:
+                    single[te.id] = ve
         if isinstance(n, ast.Assign) and len(n.targets) == 1 and isinstance(n.targets[0], ast.Name):
             t = n.targets[0].id
             if stores.get(t) == 1 and t not in params:
